@@ -481,4 +481,8 @@ def run(ctx: Context) -> None:
     ctx.isolate(r5_strategy_supplied)
     ctx.isolate(r7_end_of_work)
     ctx.isolate(r9_timeout_handed_over)
+    from . import c19
+    ctx.isolate(c19.r6_closed_loop, _alias={"C19.R6": "C05.R10"})
+    from . import c06
+    ctx.isolate(c06.remaining_time_table, "C05.R11")
     ctx.isolate(c03.r7_step_accounting, _alias={"C03.R7": "C05.R8"})
